@@ -200,6 +200,7 @@ func registerStubs(e *Engine) {
 	registerStoreStubs(e)
 	registerNumStubs(e)
 	registerProtoStubs(e)
+	registerHashStubs(e)
 
 	// ---- fmt ----
 	e.reg("fmt.Sprintf", func(fr *frame, args []value) value { return fr.ex.sprintf(fr, args[0], args[1].([]value)) })
